@@ -14,7 +14,7 @@ import (
 // ---------------------------------------------------------------------------
 // SAVEDONLY: only entries saved in the volume set occupy a data slot
 
-const ruleSAVEDONLYText = "one data slot per saved entry: in (*par1.Decoder).LoadFileData every append to the slice that becomes d.fileData - a file's bytes or the nil that marks it unusable - is dominated by the entry's savedInVolumeSet() being true; an entry outside the set never adds a slot, whatever the state of its file (the coder's shard count and Repair's entry mapping are built on that)"
+const ruleSAVEDONLYText = "one data slot per saved entry: in (*par1.Decoder).LoadFileData every append to the slice that becomes d.fileData - a file's bytes or the nil that marks it unusable - is dominated by the entry's savedInVolumeSet() being true; an entry outside the set never adds a slot, whatever the state of its file (the coder's shard count and Repair's entry mapping are built on that); in the methods of the PAR1 decoder, FileBytes of an element of the unfiltered entry list is read only under savedInVolumeSet() - sizes of files that are listed but not protected take no part"
 
 func ruleSAVEDONLY(w *World, r *Report) {
 	r.rule("SAVEDONLY", ruleSAVEDONLYText)
@@ -56,6 +56,149 @@ func ruleSAVEDONLY(w *World, r *Report) {
 		}
 	}
 	r.floor("SAVEDONLY", "appends to the data slots", n, 1)
+	// sizes of entries outside the set play no part: in the decoder, FileBytes of an element of the
+	// raw entry list (d.indexVolume.entries itself, not a filtered copy) is read only where that
+	// entry is known to be saved in the volume set
+	k := 0
+	for _, top := range w.funcsInPkgs("par1") {
+		for _, f := range withAnon(top) {
+			root := f
+			for root.Parent() != nil {
+				root = root.Parent()
+			}
+			if root.Signature.Recv() == nil || !strings.HasSuffix(namedTypeName(root.Signature.Recv().Type()), ".Decoder") {
+				continue
+			}
+			for _, b := range f.Blocks {
+				for _, in := range b.Instrs {
+					var base ssa.Value
+					switch x := in.(type) {
+					case *ssa.Field:
+						if st, ok := x.X.Type().Underlying().(*types.Struct); ok && st.Field(x.Field).Name() == "FileBytes" {
+							base = x.X
+						}
+					case *ssa.FieldAddr:
+						if st, ok := derefType(x.X.Type()).Underlying().(*types.Struct); ok && st.Field(x.Field).Name() == "FileBytes" {
+							base = x.X
+						}
+					}
+					if base == nil {
+						continue
+					}
+					// walk to the element the header belongs to
+					raw := false
+					for d := 0; d < 8 && base != nil; d++ {
+						switch y := base.(type) {
+						case *ssa.Field:
+							base = y.X
+						case *ssa.FieldAddr:
+							base = y.X
+						case *ssa.UnOp:
+							base = y.X
+						case *ssa.Alloc:
+							// the loop variable kept in a cell: what is stored into it
+							base = nil
+							for _, ref := range referrersOf(y) {
+								if st, ok := ref.(*ssa.Store); ok && st.Addr == ssa.Value(y) {
+									base = st.Val
+								}
+							}
+						case *ssa.IndexAddr:
+							if ld, ok := stripConv(y.X).(*ssa.UnOp); ok && ld.Op == token.MUL {
+								if fa, ok := ld.X.(*ssa.FieldAddr); ok {
+									if st, ok := derefType(fa.X.Type()).Underlying().(*types.Struct); ok && st.Field(fa.Field).Name() == "entries" {
+										raw = true
+									}
+								}
+							}
+							base = nil
+						default:
+							base = nil
+						}
+					}
+					if !raw {
+						continue
+					}
+					// only a size that takes part in a decision or ends up in state counts: one that is
+					// merely handed to a call (a delegate callback, a log line) is not the rule's business
+					decides := false
+					seenV := map[ssa.Value]bool{}
+					var fwd func(v ssa.Value, d int)
+					fwd = func(v ssa.Value, d int) {
+						if v == nil || seenV[v] || d > 8 || decides {
+							return
+						}
+						seenV[v] = true
+						for _, ref := range referrersOf(v) {
+							switch y := ref.(type) {
+							case *ssa.If, *ssa.Return:
+								decides = true
+							case *ssa.Store:
+								if al, isAl := y.Addr.(*ssa.Alloc); isAl && y.Val == v {
+									fwd(al, d+1)
+								} else if y.Val == v {
+									decides = true
+								}
+							case *ssa.BinOp:
+								fwd(y, d+1)
+							case *ssa.UnOp:
+								fwd(y, d+1)
+							case *ssa.Convert:
+								fwd(y, d+1)
+							case *ssa.ChangeType:
+								fwd(y, d+1)
+							case *ssa.Phi:
+								fwd(y, d+1)
+							case *ssa.Slice, *ssa.IndexAddr, *ssa.MakeSlice:
+								decides = true
+							}
+						}
+					}
+					if fa, isAddr := in.(*ssa.FieldAddr); isAddr {
+						for _, ref := range referrersOf(fa) {
+							if ld, ok := ref.(*ssa.UnOp); ok && ld.Op == token.MUL {
+								fwd(ld, 0)
+							}
+						}
+					} else {
+						fwd(in.(ssa.Value), 0)
+					}
+					if !decides {
+						continue
+					}
+					key := fmt.Sprintf("%s:FileBytes-of-raw-entry#%d", shortName(root), k)
+					k++
+					guarded := false
+					cmps := cmpsAt(b)
+					// inside a function literal: what holds where the literal is made holds inside
+					for lit := f; lit.Parent() != nil; lit = lit.Parent() {
+						for _, pb := range lit.Parent().Blocks {
+							for _, pin := range pb.Instrs {
+								if mc, ok := pin.(*ssa.MakeClosure); ok && mc.Fn == ssa.Value(lit) {
+									cmps = append(cmps, cmpsAt(pb)...)
+								}
+							}
+						}
+					}
+					for _, c := range cmps {
+						if c.Y != nil || c.Op != token.NEQ {
+							continue
+						}
+						if cl, isCall := stripConv(c.X).(*ssa.Call); isCall {
+							if g := cl.Call.StaticCallee(); g != nil && g.Name() == "savedInVolumeSet" && w.fnPkg(g) == "par1" {
+								guarded = true
+							}
+						}
+					}
+					if guarded {
+						r.ok("SAVEDONLY", key, w.ipos(in), "the size is read only for an entry saved in the volume set")
+					} else {
+						r.bad("SAVEDONLY", key, w.ipos(in), "the decoder reads FileBytes of an element of the unfiltered entry list without knowing that the entry is saved in the volume set: the size of a file that is merely listed (not protected) takes part in a decision about the set")
+					}
+				}
+			}
+		}
+	}
 }
 
 // ---------------------------------------------------------------------------
